@@ -451,7 +451,9 @@ impl IoLoop {
                 ConnectionState::ServerClosing(_)
                 | ConnectionState::ClientException
                 | ConnectionState::ClientClosed => {
-                    unreachable!("ch0 slot cannot be readable after it is dropped")
+                    // Stale wake-up: the request was queued in the same poll batch in which we
+                    // saw the close and dropped the channel 0 slot. The caller's handle is
+                    // disconnected and reports the failure; nothing to do here.
                 }
             },
             ALLOC_CHANNEL => match &state {
@@ -461,7 +463,9 @@ impl IoLoop {
                 ConnectionState::ServerClosing(_)
                 | ConnectionState::ClientException
                 | ConnectionState::ClientClosed => {
-                    unreachable!("ch0 slot cannot be readable after it is dropped")
+                    // Stale wake-up: the request was queued in the same poll batch in which we
+                    // saw the close and dropped the channel 0 slot. The caller's handle is
+                    // disconnected and reports the failure; nothing to do here.
                 }
             },
             Token(0) => match &state {
@@ -471,7 +475,9 @@ impl IoLoop {
                 ConnectionState::ServerClosing(_)
                 | ConnectionState::ClientException
                 | ConnectionState::ClientClosed => {
-                    unreachable!("ch0 slot cannot be readable after it is dropped")
+                    // Stale wake-up: the request was queued in the same poll batch in which we
+                    // saw the close and dropped the channel 0 slot. The caller's handle is
+                    // disconnected and reports the failure; nothing to do here.
                 }
             },
             Token(n) if n <= u16::max_value() as usize => {
